@@ -6,6 +6,8 @@ R1 lockstep: wind_chain, on every path from the accepting edge of Block::validat
 R2 ledger ownership: a UtxoSet is mutated only by Slip::on_chain_reorganization, Slip::delete and the checkpoint branch
    of add_blocks_from_mempool; Slip::on_chain_reorganization is called only from Transaction::, that only from Block::,
    that only from wind_chain / unwind_chain
+R4 full before apply: in wind_chain and unwind_chain the call that applies the block's transactions to the UTXO set is
+   dominated, in the same body, by a call that reaches Block::upgrade_block_to_block_type
 R3 index ownership: BlockRing::on_chain_reorganization is called and Block.in_longest_chain written only by the bodies
    of the frozen table
 """
@@ -91,6 +93,7 @@ def run(prog, tier, extra=None):
     res = Result("C03", "other")
     R1 = res.rule("C03.lockstep", "wind/unwind update blockring, UTXO set, wallet and blockchain exactly once each, same direction", floor=9)
     R2 = res.rule("C03.ledger-owner", "only the wind/unwind primitives (and two named exceptions) mutate a UtxoSet", floor=6)
+    R4 = res.rule("C03.full-before-apply", "wind/unwind upgrade the block to a full block in the same step before applying its transactions", floor=2)
     R3 = res.rule("C03.index-owner", "only the table's bodies write the longest-chain index / in_longest_chain", floor=8)
 
     wind = prog.body(BC + "wind_chain::{closure#0}")
@@ -124,6 +127,25 @@ def run(prog, tier, extra=None):
         return None
     lockstep(res, R1, unwind, [0], False, unwind_accept, "a Wind/Unwind continuation")
 
+    # R4: the block whose transactions are (un)wound is a full block: within the same step, the call of
+    # Block::on_chain_reorganization is dominated by a call that reaches upgrade_block_to_block_type
+    # (each step also prunes old blocks, so an upgrade done earlier, outside the step, can be undone before the block's turn)
+    cg0 = CallGraph(prog, [u for u in prog.units if u.crate == "saito_core"])
+    UPG = CORE + "consensus::block::Block::upgrade_block_to_block_type"
+    upgraders = {p for p in cg0.bodies if any(q.startswith(UPG) for q in cg0.reachable_from([p], kinds=("call", "await")))}
+    for body in (wind, unwind):
+        ups = [bb for bb, t in body.calls() if (t.get("res") or t.get("callee") or "") in upgraders]
+        for bb, t in body.calls():
+            if call_name(t) != REORG["utxo"]:
+                continue
+            res.instance(R4)
+            if not any(body.dominates(u, bb) for u in ups):
+                res.add(Finding(R4, "C03.full-before-apply|%s" % body.path,
+                                "%s applies Block::on_chain_reorganization to a block that was not upgraded to a full block in the same step: "
+                                "a pruned block has no transactions, so nothing is (un)wound while index and flags move" % body.path.split("::")[-2], body.loc(bb)))
+            else:
+                res.sample({"rule": R4, "body": body.path.split("::")[-2], "site": body.loc(bb), "verdict": "dominated by an upgrade to BlockType::Full in the same step"})
+
     # R2
     cg = CallGraph(prog, [u for u in prog.units if u.crate in ("saito_core", "saito_rust", "saito_spammer", "saito_wasm")])
     MUT = {"insert", "remove", "remove_entry", "clear", "retain", "drain", "extend", "entry", "get_mut", "iter_mut", "values_mut"}
@@ -146,11 +168,20 @@ def run(prog, tier, extra=None):
         (CORE + "consensus::slip::Slip::on_chain_reorganization", [CORE + "consensus::transaction::Transaction::on_chain_reorganization"]),
         (CORE + "consensus::transaction::Transaction::on_chain_reorganization", [CORE + "consensus::block::Block::on_chain_reorganization"]),
         (CORE + "consensus::block::Block::on_chain_reorganization", [BC + "wind_chain", BC + "unwind_chain"]),
+        # the pruning primitive: only the purge of blocks that left the retention window may erase outputs
+        (CORE + "consensus::slip::Slip::delete", [CORE + "consensus::transaction::Transaction::delete"]),
+        (CORE + "consensus::transaction::Transaction::delete", [CORE + "consensus::block::Block::delete"]),
+        (CORE + "consensus::block::Block::delete", [BC + "delete_block"]),
     ]
     for callee, allowed in chain:
         if callee not in cg.bodies:
             raise LookupError(callee + " not found")
-        for e in cg.inn[callee]:
+        edges = list(cg.inn[callee]) + list(cg.inn.get(callee + "::{closure#0}", []))
+        seen_src = set()
+        for e in edges:
+            if e.kind == "creates" or e.src == callee or e.src in seen_src:
+                continue
+            seen_src.add(e.src)
             src = cg.bodies[e.src]
             if "::tests::" in e.src or "/test/" in src.file:
                 continue
